@@ -298,6 +298,39 @@ def builders(I, repo):
                                    surf_species=ListV([statmech('surf')]), gas_species=ListV([statmech('gas')])))
     add('omkm.BEP', lambda: new('pmutt.omkm.reaction.BEP', slope=D.sym('bslope'), intercept=D.sym('bicpt'),
                                 name='bep2', descriptor='delta_H', direction='cleavage'))
+
+    # ---- every option once with a value that is NOT the constructor's default (a key that is not written, or
+    # not read back, otherwise returns with the same value), and the documented "(N,) ndarray" attributes once as
+    # the array the documentation names and once left to the constructor's default
+    def nparr(prefix, n):
+        v = arr(prefix, n)
+        v.is_array = True
+        return v
+    add('PhaseDiagram[default norm_factors]', lambda: new('pmutt.reaction.phasediagram.PhaseDiagram',
+                                                          reactions=ListV([rxn('pmutt.reaction.Reaction')])))
+    add('PhaseDiagram[ndarray norm_factors]', lambda: new('pmutt.reaction.phasediagram.PhaseDiagram',
+                                                          reactions=ListV([rxn('pmutt.reaction.Reaction')]),
+                                                          norm_factors=nparr('nfa', 1)))
+    add('SurfaceReaction[adsorption]', lambda: rxn('pmutt.omkm.reaction.SurfaceReaction', id='r_0002',
+                                                   is_adsorption=True, sticking_coeff=D.sym('stick'),
+                                                   Ea=D.sym('Ea'), direction='synthesis', use_motz_wise=True))
+    add('ExtendedLSR[notes, ndarray slopes]', lambda: new(
+        S + 'lsr.ExtendedLSR', slopes=nparr('es', 1), intercept=D.sym('eicpt'),
+        reactions=ListV([rxn('pmutt.reaction.Reaction')]), surf_species=ListV([statmech('surf')]),
+        gas_species=ListV([statmech('gas')]), notes='source of the relation'))
+    add('References[descriptor=notes]', lambda: new(
+        'pmutt.empirical.references.References', offset=DictV({'CH3': D.sym('offCH3'), 'OH': D.sym('offOH')}),
+        references=None, descriptor='notes', T_ref=D.sym('Tref2')))
+    add('StatMech[references by notes]', lambda: statmech('sp3', refs=new(
+        'pmutt.empirical.references.References', offset=DictV({'CH3': D.sym('offCH3'), 'OH': D.sym('offOH')}),
+        references=None, descriptor='notes', T_ref=D.sym('Tref2'))))
+    add('Shomate[units]', lambda: new('pmutt.empirical.shomate.Shomate', name='sh3', T_low=D.sym('Tsl'),
+                                      T_high=D.sym('Tsh'), a=nparr('shb', 8), units='cal/mol/K',
+                                      elements=DictV({'C': D.sym('nC')}), phase='G'))
+    add('BEP[descriptor]', lambda: new('pmutt.reaction.bep.BEP', slope=D.sym('bslope'), intercept=D.sym('bicpt'),
+                                       name='bep3', descriptor='rev_delta_H'))
+    add('Reaction[no transition state]', lambda: rxn('pmutt.reaction.Reaction', transition_state=None,
+                                                     transition_state_stoich=None, notes=None))
     return out
 
 
@@ -477,5 +510,30 @@ MUTANTS = [
     {'name': 'EinsteinVib.to_dict swaps the two values', 'expect': ('TABLE.roundtrip', 'EinsteinVib'),
      'edits': [('pmutt/statmech/vib.py', "            'einstein_temperature': self.einstein_temperature,\n            'interaction_energy': self.interaction_energy",
                 "            'einstein_temperature': self.interaction_energy,\n            'interaction_energy': self.einstein_temperature")]},
+    # ---- instances added after the white-box review (non-default options, documented ndarray attributes)
+    {'name': 'PhaseDiagram.to_dict leaves the array of normalisation factors in the dictionary',
+     'expect': ('TABLE.encode', 'PhaseDiagram'),
+     'edits': [('pmutt/reaction/phasediagram.py', "obj_dict['norm_factors'] = list(self.norm_factors)",
+                "obj_dict['norm_factors'] = self.norm_factors")]},
+    {'name': 'SurfaceReaction.to_dict forgets is_adsorption', 'expect': ('TABLE.roundtrip', 'SurfaceReaction'),
+     'edits': [('pmutt/omkm/reaction.py', "        obj_dict['is_adsorption'] = self.is_adsorption\n", "")]},
+    {'name': 'ExtendedLSR.from_dict loses the notes', 'expect': ('TABLE.roundtrip', 'ExtendedLSR'),
+     'edits': [('pmutt/statmech/lsr.py',
+                "        json_obj['reactions'] = json_to_pmutt(json_obj['reactions'])\n",
+                "        json_obj['reactions'] = json_to_pmutt(json_obj['reactions'])\n"
+                "        json_obj.pop('notes', None)\n")]},
+    {'name': 'ExtendedLSR.to_dict leaves the array of slopes in the dictionary', 'expect': ('TABLE.encode', 'ExtendedLSR'),
+     'edits': [('pmutt/statmech/lsr.py', "'slopes': list(self.slopes),", "'slopes': self.slopes,")]},
+    {'name': 'References.to_dict does not write the descriptor', 'expect': ('TABLE.roundtrip', 'References'),
+     'edits': [('pmutt/empirical/references.py', "            'descriptor': self.descriptor,\n", "")]},
+    {'name': 'Shomate.to_dict does not write the units', 'expect': ('TABLE.roundtrip', 'Shomate'),
+     'edits': [('pmutt/empirical/shomate.py', "        obj_dict['units'] = self.units\n", "")]},
+    {'name': 'BEP.to_dict does not write the descriptor', 'expect': ('TABLE.roundtrip', 'BEP'),
+     'edits': [('pmutt/reaction/bep.py', "            'descriptor': self.descriptor,\n", "")]},
+    {'name': 'Reaction.from_dict decodes the transition state entry by entry (None is not iterable)',
+     'expect': ('TABLE.decode', 'Reaction'),
+     'edits': [('pmutt/reaction/__init__.py',
+                "        json_obj['transition_state'] = json_to_pmutt(\n            json_obj['transition_state'])\n",
+                "        json_obj['transition_state'] = [\n            json_to_pmutt(ts) for ts in json_obj['transition_state']]\n")]},
 ]
 EQUIV = []
